@@ -57,6 +57,8 @@ pub fn run(cfg: &Cfg, rep: &mut Report) -> Result<(), String> {
         #[cfg(feature = "utf16")]
         "c05u16" => u16mon::run(cfg, rep, u16mon::Mode::Steps),
         #[cfg(feature = "utf16")]
+        "c18u16" => c18::run_u16(cfg, rep),
+        #[cfg(feature = "utf16")]
         "c11u16" => c11::run_u16(cfg, rep),
         "c15" => c15::run(cfg, rep),
         #[cfg(feature = "pattern")]
